@@ -349,6 +349,11 @@ class Abs:
                     v.truthy = YES if pol else NO
                     if pol:
                         v.none = NO
+                elif pol and isinstance(cond, ast.Call) and isinstance(cond.func, ast.Name) and cond.func.id == 'any' and \
+                        len(cond.args) == 1 and not cond.keywords and same_expr(cond.args[0], e) and \
+                        self.prog.resolve_name(fn.module, 'any') is None:
+                    v.truthy = YES          # any(x) holds: x has an element
+                    v.none = NO
                 elif isinstance(cond, ast.Compare) and len(cond.ops) == 1 and same_expr(cond.left, e):
                     rhs = cond.comparators[0]
                     if isinstance(rhs, ast.Constant) and rhs.value is None:
